@@ -1,1 +1,376 @@
-import GwcsModel.Polygon
+/-
+  C14 — Polygon masks cover the polygon, hug it, and clip cleanly to the image.
+  Property theorems only; helper lemmas live in GwcsProofs/Lemmas/PolyLemmas.lean.
+-/
+import GwcsProofs.Lemmas.PolyLemmas
+
+namespace Gwcs.Poly
+
+/-- **fill_iff_count.** Pairing a sorted even-length list two at a time and filling the closed
+    spans marks `p` iff `p` is one of the end points or an odd number of entries lie strictly
+    left of it. -/
+theorem marked_iff_count : ∀ (l : List Int) (p : Int), l.Pairwise (· ≤ ·) → l.length % 2 = 0 →
+    (markedBy l p = true ↔ (p ∈ l ∨ cntLt l p % 2 = 1))
+  | [], p, _, _ => by simp [markedBy, pairs, cntLt]
+  | [a], p, _, he => by simp at he
+  | a :: b :: r, p, hs, he => by
+    have hs' : r.Pairwise (· ≤ ·) := by
+      simp only [List.pairwise_cons] at hs; exact hs.2.2
+    have ih := marked_iff_count r p hs' (by simp at he; omega)
+    have hab : a ≤ b := by
+      simp only [List.pairwise_cons] at hs; exact hs.1 b (by simp)
+    have hbr : ∀ c ∈ r, b ≤ c := by
+      simp only [List.pairwise_cons] at hs; exact hs.2.1
+    rw [markedBy_cons2, Bool.or_eq_true, ih, cntLt_cons, cntLt_cons]
+    simp only [decide_eq_true_eq, List.mem_cons]
+    by_cases h1 : p < a
+    · have hz : cntLt r p = 0 := cntLt_zero_of_le r p (fun c hc => by have := hbr c hc; omega)
+      have hn : p ∉ r := fun hm => by have := hbr p hm; omega
+      have na : ¬ a < p := by omega
+      have nb : ¬ b < p := by omega
+      simp only [hz, hn, na, nb, if_false]
+      constructor
+      · rintro (h | h)
+        · omega
+        · rcases h with h | h <;> simp at h
+      · rintro ((h | h | h) | h)
+        · omega
+        · omega
+        · exact h.elim
+        · simp at h
+    · by_cases h2 : p ≤ b
+      · have hz : cntLt r p = 0 := cntLt_zero_of_le r p (fun c hc => by have := hbr c hc; omega)
+        rw [hz]
+        constructor
+        · intro _
+          by_cases hpa : p = a
+          · exact Or.inl (Or.inl hpa)
+          · by_cases hpb : p = b
+            · exact Or.inl (Or.inr (Or.inl hpb))
+            · right
+              have : a < p := by omega
+              have : ¬ b < p := by omega
+              simp [*]
+        · intro _; left; omega
+      · have ha : a < p := by omega
+        have hb : b < p := by omega
+        simp only [ha, hb, if_true]
+        constructor
+        · rintro (h | h | h)
+          · omega
+          · exact Or.inl (Or.inr (Or.inr h))
+          · right; omega
+        · rintro ((h | h | h) | h)
+          · omega
+          · omega
+          · exact Or.inr (Or.inl h)
+          · right; right; omega
+
+/-- **clip.** With the guard, the columns written for the span `[i, j]` shifted by `s` on a row of
+    `nx` pixels are exactly the in-image columns of the shifted span (Python slice semantics). -/
+theorem spanCols_iff (nx : Nat) (s i j : Int) (c : Nat) :
+    c ∈ spanCols nx s i j ↔ (c < nx ∧ i + s ≤ c ∧ (c : Int) ≤ j + s) := by
+  unfold spanCols
+  simp only
+  split
+  · simp only [List.not_mem_nil, false_iff]; omega
+  · rw [mem_pySlice_range _ _ _ (by omega) (by omega)]; omega
+
+/-- Witness (not the property): without the guard a span wholly left of the image wraps around —
+    the D2 defect: span `[0,5]` shifted by `-10` on a 12-pixel row writes column 7. -/
+theorem spanColsUnguarded_wraps :
+    (7 : Nat) ∈ spanColsUnguarded 12 (-10) 0 5 ∧ ¬ (((7 : Nat) : Int) ≤ 5 + (-10)) := by
+  decide
+
+/-- Row-level marking through sorting: membership and counts are those of the unsorted list. -/
+theorem marked_sorted_iff (cs : List Int) (p : Int) (he : cs.length % 2 = 0) :
+    markedBy (sortInts cs) p = true ↔ (p ∈ cs ∨ cntLt cs p % 2 = 1) := by
+  rw [marked_iff_count _ _ (sortInts_sorted cs) (by rw [(sortInts_perm cs).length_eq]; exact he)]
+  rw [(sortInts_perm cs).mem_iff, cntLt_perm (sortInts_perm cs)]
+
+/-- **row_covers.** On a row crossed by an even number of edges, an integer column with an odd
+    number of exact crossings strictly to its left and none through it is marked, whatever the
+    admissible slack. -/
+theorem row_covers (l : List (Rat × Int)) (p : Int) (hadm : ∀ xs ∈ l, admissible xs)
+    (heven : l.length % 2 = 0) (hodd : cntLtQ l p % 2 = 1) (hne : ∀ xs ∈ l, xs.1 ≠ (p : Rat)) :
+    markedBy (sortInts (l.map cOf)) p = true := by
+  rw [marked_sorted_iff _ _ (by simpa using heven)]
+  by_cases hc : p ∈ l.map cOf
+  · exact Or.inl hc
+  · right; rw [cntLt_map_cOf l p hadm hc hne]; exact hodd
+
+/-- **row_hugs.** A marked column is within one pixel to the right of an exact crossing, or has an
+    odd number of crossings strictly to its left (and none through it). -/
+theorem row_hugs (l : List (Rat × Int)) (p : Int) (hadm : ∀ xs ∈ l, admissible xs)
+    (heven : l.length % 2 = 0) (hm : markedBy (sortInts (l.map cOf)) p = true) :
+    (∃ xs ∈ l, 0 ≤ (p : Rat) - xs.1 ∧ (p : Rat) - xs.1 ≤ 1) ∨
+      (cntLtQ l p % 2 = 1 ∧ ∀ xs ∈ l, xs.1 ≠ (p : Rat)) := by
+  rw [marked_sorted_iff _ _ (by simpa using heven)] at hm
+  by_cases hc : p ∈ l.map cOf
+  · left
+    obtain ⟨xs, hxs, he⟩ := List.mem_map.mp hc
+    exact ⟨xs, hxs, by rw [← he]; exact cOf_near xs (hadm xs hxs)⟩
+  · by_cases hx : ∀ xs ∈ l, xs.1 ≠ (p : Rat)
+    · right
+      rcases hm with hm | hm
+      · exact absurd hm hc
+      · rw [cntLt_map_cOf l p hadm hc hx] at hm; exact ⟨hm, hx⟩
+    · left
+      have : ∃ xs ∈ l, xs.1 = (p : Rat) := by
+        apply Classical.byContradiction
+        intro hno
+        apply hx
+        intro xs hxs he
+        exact hno ⟨xs, hxs, he⟩
+      obtain ⟨xs, hxs, he⟩ := this
+      exact ⟨xs, hxs, by rw [he]; constructor <;> grind⟩
+
+/-- **even_crossings (half-open below).** A closed vertex cycle meets every row in an even number
+    of edges under the rule `ymin ≤ y < ymax`. -/
+theorem closed_even_lo (v : List Pt) (hne : v ≠ []) (hclosed : v.head hne = v.getLast hne) (y : Int) :
+    (activeLo (edgesOf v) y).length % 2 = 0 := by
+  obtain ⟨a, r, rfl⟩ := List.exists_cons_of_ne_nil hne
+  unfold activeLo
+  rw [← List.countP_eq_length_filter]
+  have hc : ∀ e : Edge, decide (e.ymin ≤ y ∧ y < e.ymax) =
+      ((fun p : Pt => decide (p.y ≤ y)) ⟨e.sx, e.sy⟩ != (fun p : Pt => decide (p.y ≤ y)) ⟨e.ex, e.ey⟩) := by
+    intro e
+    have := lo_cond e y
+    cases h : (decide (e.sy ≤ y) != decide (e.ey ≤ y)) <;> simp_all
+  rw [List.countP_congr (fun e _ => by rw [hc e])]
+  rw [chain_parity (fun p : Pt => decide (p.y ≤ y)) a r]
+  simp only [List.head_cons] at hclosed
+  rw [← hclosed]; simp
+
+/-- **even_crossings (half-open above)**, rule `ymin < y ≤ ymax` (used on the top row). -/
+theorem closed_even_hi (v : List Pt) (hne : v ≠ []) (hclosed : v.head hne = v.getLast hne) (y : Int) :
+    (activeHi (edgesOf v) y).length % 2 = 0 := by
+  obtain ⟨a, r, rfl⟩ := List.exists_cons_of_ne_nil hne
+  unfold activeHi
+  rw [← List.countP_eq_length_filter]
+  have hc : ∀ e : Edge, decide (e.ymin < y ∧ y ≤ e.ymax) =
+      ((fun p : Pt => decide (p.y < y)) ⟨e.sx, e.sy⟩ != (fun p : Pt => decide (p.y < y)) ⟨e.ex, e.ey⟩) := by
+    intro e
+    have := hi_cond e y
+    cases h : (decide (e.sy < y) != decide (e.ey < y)) <;> simp_all
+  rw [List.countP_congr (fun e _ => by rw [hc e])]
+  rw [chain_parity (fun p : Pt => decide (p.y < y)) a r]
+  simp only [List.head_cons] at hclosed
+  rw [← hclosed]; simp
+
+/-! ### Polygon-level statements
+
+`InsideLo v p y`: an odd number of edges of the closed chain `v` cross row `y` (rule
+`ymin ≤ y < ymax`) strictly left of the integer column `p`, none through it — the even–odd
+definition of "the pixel centre `(p, y)` is strictly inside".  `InsideHi` is the same with the
+rule `ymin < y ≤ ymax`; a point satisfying either lies in the closure of the even–odd interior. -/
+
+def crossingsLeft (act : List Edge) (p y : Int) : Nat :=
+  act.countP (fun e => decide (e.xAt y < (p : Rat)))
+
+def InsideLo (v : List Pt) (p y : Int) : Prop :=
+  crossingsLeft (activeLo (edgesOf v) y) p y % 2 = 1 ∧ ∀ e ∈ activeLo (edgesOf v) y, e.xAt y ≠ (p : Rat)
+
+def InsideHi (v : List Pt) (p y : Int) : Prop :=
+  crossingsLeft (activeHi (edgesOf v) y) p y % 2 = 1 ∧ ∀ e ∈ activeHi (edgesOf v) y, e.xAt y ≠ (p : Rat)
+
+/-- a point of a non-horizontal edge on row `y` lies within one pixel to the left of column `p` -/
+def NearBoundary (v : List Pt) (p y : Int) : Prop :=
+  ∃ e ∈ edgesOf v, e.sy ≠ e.ey ∧ e.ymin ≤ y ∧ y ≤ e.ymax ∧
+    0 ≤ (p : Rat) - e.xAt y ∧ (p : Rat) - e.xAt y ≤ 1
+
+def Admissible (σ : Slack) : Prop := ∀ e y, admissibleAt σ e y
+
+theorem rowXs_eq (σ : Slack) (act : List Edge) (y : Int) :
+    rowXs σ act y = (act.map (fun e => (e.xAt y, σ e y))).map cOf := by
+  simp [rowXs, cOf, List.map_map, Function.comp_def]
+
+theorem activeLo_pred_eq_activeHi (es : List Edge) (y : Int) : activeLo es (y - 1) = activeHi es y := by
+  unfold activeLo activeHi
+  apply List.filter_congr
+  intro e _
+  have : (e.ymin ≤ y - 1 ∧ y - 1 < e.ymax) ↔ (e.ymin < y ∧ y ≤ e.ymax) := by omega
+  simp [this]
+
+theorem geoOf_es (v : List Pt) : (geoOf v).es = edgesOf v := by
+  cases v <;> simp [geoOf, edgesOf]
+
+/-- marking on a row in terms of an explicit active list -/
+theorem marked_of_inside (σ : Slack) (hσ : Admissible σ) (act : List Edge) (p y : Int)
+    (heven : act.length % 2 = 0)
+    (hodd : crossingsLeft act p y % 2 = 1) (hne : ∀ e ∈ act, e.xAt y ≠ (p : Rat)) :
+    markedBy (sortInts (rowXs σ act y)) p = true := by
+  rw [rowXs_eq]
+  apply row_covers
+  · intro xs hxs
+    obtain ⟨e, _, rfl⟩ := List.mem_map.mp hxs
+    exact hσ e y
+  · simpa using heven
+  · unfold cntLtQ; rw [List.countP_map]; exact hodd
+  · intro xs hxs
+    obtain ⟨e, he, rfl⟩ := List.mem_map.mp hxs
+    exact hne e he
+
+theorem near_or_inside_of_marked (σ : Slack) (hσ : Admissible σ) (act : List Edge) (p y : Int)
+    (heven : act.length % 2 = 0) (hm : markedBy (sortInts (rowXs σ act y)) p = true) :
+    (∃ e ∈ act, 0 ≤ (p : Rat) - e.xAt y ∧ (p : Rat) - e.xAt y ≤ 1) ∨
+      (crossingsLeft act p y % 2 = 1 ∧ ∀ e ∈ act, e.xAt y ≠ (p : Rat)) := by
+  rw [rowXs_eq] at hm
+  have := row_hugs _ p (by
+      intro xs hxs
+      obtain ⟨e, _, rfl⟩ := List.mem_map.mp hxs
+      exact hσ e y) (by simpa using heven) hm
+  rcases this with ⟨xs, hxs, h⟩ | ⟨h1, h2⟩
+  · left
+    obtain ⟨e, he, rfl⟩ := List.mem_map.mp hxs
+    exact ⟨e, he, h⟩
+  · right
+    refine ⟨?_, ?_⟩
+    · unfold cntLtQ at h1; rw [List.countP_map] at h1; exact h1
+    · intro e he
+      exact h2 (e.xAt y, σ e y) (List.mem_map_of_mem he)
+
+/-- **covers_strict_interior.** For every closed vertex chain of positive width, every admissible
+    slack and every integer pixel centre `(p, y)` on a row of the polygon: if the centre is
+    strictly inside by the even–odd rule (rule Lo below the top row, rule Hi on the top row)
+    then the scan marks it. -/
+theorem covers_strict_interior (σ : Slack) (hσ : Admissible σ) (v : List Pt) (hne : v ≠ [])
+    (hclosed : v.head hne = v.getLast hne) (hw : 0 < (geoOf v).width) (p y : Int)
+    (hy : (geoOf v).ybot ≤ y ∧ y ≤ (geoOf v).ytop)
+    (hin : (y < (geoOf v).ytop ∧ InsideLo v p y) ∨ (y = (geoOf v).ytop ∧ InsideHi v p y)) :
+    canvasMarked σ (geoOf v) p y = true := by
+  unfold canvasMarked activeAt
+  rw [geoOf_es]
+  simp only [Bool.and_eq_true, decide_eq_true_eq]
+  refine ⟨⟨hy.1, hy.2, hw⟩, ?_⟩
+  rcases hin with ⟨hlt, h1, h2⟩ | ⟨heq, h1, h2⟩
+  · rw [if_pos hlt]
+    exact marked_of_inside σ hσ _ p y (closed_even_lo v hne hclosed y) h1 h2
+  · rw [if_neg (by omega), ← heq, activeLo_pred_eq_activeHi]
+    exact marked_of_inside σ hσ _ p y (closed_even_hi v hne hclosed y) h1 h2
+
+/-- **hugs.** Every marked pixel `(p, y)` is at most one pixel to the right of a boundary point of
+    its own row, or is inside by the even–odd rule (hence in the closed polygon). -/
+theorem hugs (σ : Slack) (hσ : Admissible σ) (v : List Pt) (hne : v ≠ [])
+    (hclosed : v.head hne = v.getLast hne) (p y : Int)
+    (hm : canvasMarked σ (geoOf v) p y = true) :
+    NearBoundary v p y ∨ InsideLo v p y ∨ InsideHi v p y := by
+  unfold canvasMarked activeAt at hm
+  rw [geoOf_es] at hm
+  simp only [Bool.and_eq_true, decide_eq_true_eq] at hm
+  obtain ⟨⟨_, hyt, _⟩, hm⟩ := hm
+  by_cases hlt : y < (geoOf v).ytop
+  · rw [if_pos hlt] at hm
+    rcases near_or_inside_of_marked σ hσ _ p y (closed_even_lo v hne hclosed y) hm with ⟨e, he, h⟩ | h
+    · left
+      unfold activeLo at he
+      simp only [List.mem_filter, decide_eq_true_eq] at he
+      refine ⟨e, he.1, ?_, he.2.1, by omega, h⟩
+      intro heq
+      have := he.2
+      unfold Edge.ymin Edge.ymax at this
+      omega
+    · right; left; exact h
+  · have heq : y = (geoOf v).ytop := by omega
+    rw [if_neg hlt, ← heq, activeLo_pred_eq_activeHi] at hm
+    rcases near_or_inside_of_marked σ hσ _ p y (closed_even_hi v hne hclosed y) hm with ⟨e, he, h⟩ | h
+    · left
+      unfold activeHi at he
+      simp only [List.mem_filter, decide_eq_true_eq] at he
+      refine ⟨e, he.1, ?_, by omega, he.2.2, h⟩
+      intro heq
+      have := he.2
+      unfold Edge.ymin Edge.ymax at this
+      omega
+    · right; right; exact h
+
+/-- **rows_out_of_reach_untouched.** Nothing is marked on rows the polygon does not reach. -/
+theorem rows_out_of_reach_untouched (σ : Slack) (g : Geo) (p y : Int) (h : y < g.ybot ∨ g.ytop < y) :
+    canvasMarked σ g p y = false := by
+  unfold canvasMarked
+  have : ¬ (g.ybot ≤ y ∧ y ≤ g.ytop ∧ 0 < g.width) := by omega
+  simp [this]
+
+/-- **zero_width_marks_nothing.** -/
+theorem zero_width_marks_nothing (σ : Slack) (g : Geo) (p y : Int) (h : g.width ≤ 0) :
+    canvasMarked σ g p y = false := by
+  unfold canvasMarked
+  have : ¬ (g.ybot ≤ y ∧ y ≤ g.ytop ∧ 0 < g.width) := by omega
+  simp [this]
+
+theorem markedBy_iff (l : List Int) (p : Int) :
+    markedBy l p = true ↔ ∃ ij ∈ pairs l, ij.1 ≤ p ∧ p ≤ ij.2 := by
+  simp [markedBy, List.any_eq_true]
+
+/-- **clip_eq_crop.** On an `ny × nx` image the pixel `(r, c)` written by `scan` is exactly the
+    canvas marking of the prepared polygon at `(c - shiftx, r - shifty)`: the answer does not
+    depend on `ny, nx`, so the mask equals the crop of the mask on any larger canvas, also for
+    polygons partly or wholly at negative coordinates. -/
+theorem clip_eq_crop (σ : Slack) (p : Prep) (ny nx r c : Nat) (hr : r < ny) (hc : c < nx) :
+    (rowCols σ p (geoOf p.verts) ny nx r).contains c =
+      canvasMarked σ (geoOf p.verts) ((c : Int) - p.shiftx) ((r : Int) - p.shifty) := by
+  unfold rowCols canvasMarked
+  simp only
+  by_cases hcond : (geoOf p.verts).ybot ≤ (r : Int) - p.shifty ∧ (r : Int) - p.shifty ≤ (geoOf p.verts).ytop ∧
+      0 < (geoOf p.verts).width
+  · rw [if_pos ⟨hr, hcond⟩]
+    simp only [hcond, and_self, decide_true, Bool.true_and]
+    rw [Bool.eq_iff_iff, markedBy_iff]
+    simp only [List.contains_iff_mem, List.mem_flatMap, spanCols_iff]
+    constructor
+    · rintro ⟨ij, hij, _, h1, h2⟩
+      exact ⟨ij, hij, by omega, by omega⟩
+    · rintro ⟨ij, hij, h1, h2⟩
+      exact ⟨ij, hij, hc, by omega, by omega⟩
+  · rw [if_neg (fun h => hcond h.2)]
+    simp [hcond]
+
+/-- **round_is_nearest.** The vertex used is within half a pixel of the given one, wherever it
+    lies: `v - 1/2 < roundQ v ≤ v + 1/2`. -/
+theorem round_is_nearest (r : Rat) : r - 1 / 2 < (roundQ r : Rat) ∧ (roundQ r : Rat) ≤ r + 1 / 2 := by
+  unfold roundQ
+  have h1 := Rat.floor_le (r + 1 / 2)
+  have h2 := Rat.lt_floor_add_one (r + 1 / 2)
+  have h3 : (((r + 1 / 2).floor + 1 : Int) : Rat) = ((r + 1 / 2).floor : Rat) + 1 := by
+    simp [Rat.intCast_add]
+  rw [h3] at h2
+  constructor <;> grind
+
+/-- **round_commutes_with_integer_shift.** -/
+theorem round_commutes_with_integer_shift (r : Rat) (k : Int) : roundQ (r + k) = roundQ r + k := by
+  unfold roundQ
+  have : r + (k : Rat) + 1 / 2 = (r + 1 / 2) + (k : Rat) := by grind
+  rw [this, Rat.floor_add_intCast]
+
+/-- **labels_last_wins.** After drawing labelled masks in order each pixel carries the label of the
+    last mask covering it, and the empty label (`none`) if none does. -/
+theorem labels_last_wins {L} (masks : List (L × (Nat → Nat → Bool))) (r c : Nat) :
+    drawAll masks r c = ((masks.filter (fun lm => lm.2 r c)).getLast?).map (·.1) := by
+  unfold drawAll
+  suffices h : ∀ (init : Nat → Nat → Option L),
+      (masks.foldl (fun img lm => fun r c => if lm.2 r c then some lm.1 else img r c) init) r c =
+        match (masks.filter (fun lm => lm.2 r c)).getLast? with
+        | some lm => some lm.1
+        | none => init r c by
+    rw [h]; cases (masks.filter (fun lm => lm.2 r c)).getLast? <;> rfl
+  induction masks with
+  | nil => intro init; rfl
+  | cons m ms ih =>
+    intro init
+    rw [List.foldl_cons, ih]
+    have hf : (m :: ms).filter (fun lm => lm.2 r c) =
+        if m.2 r c then m :: ms.filter (fun lm => lm.2 r c) else ms.filter (fun lm => lm.2 r c) := by
+      simp [List.filter_cons]
+    rw [hf]
+    by_cases hm : m.2 r c = true
+    · simp only [hm, if_true]
+      cases hl : (ms.filter (fun lm => lm.2 r c)) with
+      | nil => simp
+      | cons a t =>
+        rw [List.getLast?_cons_cons]
+        have : (a :: t).getLast? = some ((a :: t).getLast (by simp)) := List.getLast?_eq_some_getLast (by simp)
+        rw [this]
+    · have hm' : m.2 r c = false := by simpa using hm
+      simp only [hm', Bool.false_eq_true, if_false]
+
+end Gwcs.Poly
